@@ -150,3 +150,21 @@ def register(reg):
         "deviating, inspecting the leader archive after every update_global_best and every personal-best replacement.",
         "Leader dominance judged by the C01 reference relation.",
         "DESIGN.md section 5 C18")
+
+    reg("C10", "BFS", "model_checking",
+        "explicit-state BFS over store operation histories on a real file, lockstep reference dict, reopen after every step",
+        "All histories of sync_individual / mutate / sync_all to depth 4 (thorough 5) over four individuals (two sharing an id) "
+        "carrying signed zeros, denormals, infinities, numpy scalars, references and nested custom data are executed on a real "
+        "SqliteDataStore; after every operation the file is reopened by ProblemViewDataStore and compared field by field "
+        "(floats by hex) with the last synchronised image; states are de-duplicated on (file rows, mutation counters). One run of "
+        "each of the eight synchronising algorithms closes the 'after a run' clause.",
+        "Depth-bounded; NaN, integer numpy scalars and string features outside the stated input space.",
+        "DESIGN.md section 5 C10")
+    reg("C11", "CRASH", "fault_enumeration",
+        "process death at every harness event (and, thorough, before every file-mutating syscall), then a recovery oracle",
+        "The writer is forked once per crash index and dies by os._exit at every event (objective entry/exit, before/after each "
+        "connect, execute, commit) of a serial sweep, an NSGA-II run and a 2-worker sweep under every schedule within the "
+        "pre-emption bound; the thorough tier re-runs the serial histories under strace and SIGKILLs the process before every "
+        "pwrite64/unlink/... so death inside a commit is covered. Every corpse is reopened read-only and judged.",
+        "Process death, not power loss; acknowledgement = the sync call returned.",
+        "DESIGN.md section 5 C11, section 3.5")
